@@ -1,5 +1,6 @@
 /- Line-protocol driver for C14 (tokenizer): buffered model, byte automaton, translated tables. -/
 import PdfVerif.Model.Lexer
+import PdfVerif.Model.LexScan
 
 open PdfVerif PdfVerif.Lexer PdfVerif.Gen.LexTables
 
@@ -43,6 +44,13 @@ def answer (line : String) : String :=
     | some a, some ws, some b =>
       if Complete (modeAfter a) then showLine (concatLex a ws b) else "open"
     | _, _, _ => "bad-op"
+  | ["gen.call", m, cur, tpos, paren, oct, hex, pos, buf] =>
+    -- one scanner call assembled from the REGENERATED parts (Gen/LexScan.lean) on the buffer `buf`
+    match modeOfPyName m, bytesOfHex cur, tpos.toNat?, paren.toInt?, bytesOfHex oct, bytesOfHex hex, pos.toNat?,
+          bytesOfHex buf with
+    | some m, some cur, some tpos, some paren, some oct, some hex, some pos, some buf =>
+      showCall (genCall { mode := m, cur := cur, tpos := tpos, paren := paren, oct := oct, hex := hex } buf pos) pos
+    | _, _, _, _, _, _, _, _ => "bad-op"
   | ["table", n] => (tableByName n).getD "bad-op"
   | _ => "bad-op"
 
